@@ -5,7 +5,7 @@
    assignment (a latency assignment only selects an interleaving of the visible events). *)
 From Oras Require Import Base.Prelude Generated.GC04 Model.CopySpec Model.CopyTop Model.CopyOpt
   Proofs.CopySpec Proofs.CopyAcct Proofs.CopyOpt Proofs.CopyAbort.
-From Oras Require Import Model.CopyHold Proofs.CopyHold.
+From Oras Require Import Model.CopyHold Proofs.CopyHold Proofs.CopyCode.
 Local Open Scope nat_scope.
 From Oras Require Model.CopyImpl Proofs.CopyImplBase Properties.C02_protocol Proofs.CopyPermitsFinal.
 
@@ -357,6 +357,14 @@ Theorem C04_permits_held_bounded_any_callbacks :
 Proof. exact holders_prefix_opt_lemma. Qed.
 Print Assumptions C04_permits_held_bounded_any_callbacks.
 
+(* after a successful return no task holds a permit (the spec-side counterpart of
+   C04_all_permits_free_at_return below) *)
+Theorem C04_no_permit_held_at_success :
+  forall (g : graph) (c : cfg) (d0 : list node) (tr : list event) (st : state),
+    accepts_h g c d0 tr = Some st -> returned st = Some true -> holders g st = 0.
+Proof. exact no_holders_at_success. Qed.
+Print Assumptions C04_no_permit_held_at_success.
+
 (* the overlay is strictly tighter: with K = 1 a second blob cannot be probed while a leaf that was
    found absent waits for its PreCopy (it holds the only permit) -- CopySpec alone accepts that
    interleaving -- and the sequential run is accepted *)
@@ -388,3 +396,73 @@ Example C04_all_permits_free_example :
   | None => False
   end.
 Proof. vm_compute. repeat split; reflexivity. Qed.
+
+(* ---- tie to the Go sources beyond the constant (Generated/GC04.v, regenerated on every run) ---- *)
+
+(* the size of the semaphore, translated from the syntax of BOTH places that create it (copyGraph in
+   copy.go, ExtendedCopyGraph in extendedcopy.go: the `if opts.Concurrency <= 0` guard, the assigned
+   default, the argument of semaphore.NewWeighted), is the model's effective concurrency; the runner
+   computes K with the generated function *)
+Theorem C04_limiter_size :
+  forall opt : Z,
+    Z.to_nat (copyGraph_limiter_size opt) = eff_K defaultConcurrency opt /\
+    Z.to_nat (ExtendedCopyGraph_limiter_size opt) = eff_K defaultConcurrency opt /\
+    ((0 < opt)%Z -> copyGraph_limiter_size opt = opt) /\
+    ((opt <= 0)%Z -> copyGraph_limiter_size opt = 3%Z).
+Proof. exact limiter_sizes_lemma. Qed.
+Print Assumptions C04_limiter_size.
+
+(* the order of the calls in the sources that the transition system and the protocol model are
+   written after (translator kind callseq): copyGraph.fn claims, probes, finds successors, releases
+   its permit, dispatches, waits, re-acquires, copies; copyNode = PreCopy, doCopyNode, PostCopy;
+   doCopyNode = Fetch, deferred Close, Push; syncutil.Go acquires before spawning and releases in the
+   goroutine's defer; Start acquires, End releases; ExtendedCopyGraph creates ONE limiter and ONE
+   tracker and its closure releases the permit around copyGraph *)
+Theorem C04_source_call_order :
+  c04_calls_copyGraph =
+    [b "tracker.TryCommit"; b "close"; b "dst.Exists"; b "opts.OnCopySkipped"; b "opts.FindSuccessors";
+     b "removeForeignLayers"; b "region.End"; b "syncutil.Go"; b "tracker.TryCommit"; b "region.Start";
+     b "proxy.Cache.Exists"; b "copyNode"; b "mountOrCopyNode"; b "syncutil.Go"]%string /\
+  c04_calls_copyNode = [b "opts.PreCopy"; b "doCopyNode"; b "opts.PostCopy"]%string /\
+  c04_calls_doCopyNode = [b "src.Fetch"; b "rc.Close"; b "dst.Push"]%string /\
+  c04_calls_mountOrCopyNode =
+    [b "copyNode"; b "copyNode"; b "opts.MountFrom"; b "copyNode"; b "opts.PreCopy"; b "src.Fetch";
+     b "mounter.Mount"; b "opts.OnMounted"; b "opts.PostCopy"]%string /\
+  c04_calls_ExtendedCopyGraph =
+    [b "findRoots"; b "semaphore.NewWeighted"; b "status.NewTracker"; b "syncutil.Go"; b "region.End";
+     b "copyGraph"; b "region.Start"]%string /\
+  c04_calls_Go =
+    [b "LimitRegion"; b "region.Start"; b "eg.Go"; b "lr.End"; b "fn"; b "eg.Wait"; b "context.Cause"]%string /\
+  c04_calls_Start = [b "lr.limiter.Acquire"]%string /\
+  c04_calls_End = [b "lr.limiter.Release"]%string.
+Proof. exact source_call_order. Qed.
+Print Assumptions C04_source_call_order.
+
+(* ... and the transition system enforces that order on the visible events of every node, in every
+   interleaving.  For a blob: PreCopy before src.Fetch; *)
+Theorem C04_fetch_after_precopy :
+  forall (g : graph) (c : cfg) (d0 : list node) (tr1 : list event) (n : node) (tr2 : list event) (st : state),
+    accepts g c d0 (tr1 ++ SFB n :: tr2) = Some st ->
+    g_ismf g n = false -> root_refpush c n = false -> In (Cb CPre n) tr1.
+Proof. exact fetch_after_precopy. Qed.
+Print Assumptions C04_fetch_after_precopy.
+
+(* content that is not in the proxy cache is pushed while its source reader is open (Fetch called
+   and returned before dst.Push is called); *)
+Theorem C04_push_after_fetch :
+  forall (g : graph) (c : cfg) (d0 : list node) (tr1 : list event) (n : node) (r : bool)
+         (tr2 : list event) (st : state),
+    accepts g c d0 (tr1 ++ PuB n r :: tr2) = Some st ->
+    exists st1, accepts g c d0 tr1 = Some st1 /\
+                (memb n (cached st1) = false -> In (SFB n) tr1 /\ In (SFE n) tr1).
+Proof. exact push_after_fetch. Qed.
+Print Assumptions C04_push_after_fetch.
+
+(* the reader is closed only after dst.Push was called (the deferred rc.Close); PostCopy after the push
+   returned is C04_push_between_callbacks *)
+Theorem C04_close_after_push :
+  forall (g : graph) (c : cfg) (d0 : list node) (tr1 : list event) (n : node) (tr2 : list event) (st : state),
+    accepts g c d0 (tr1 ++ SFC n :: tr2) = Some st ->
+    g_ismf g n = false -> c_mount c = false -> In (PuB n (root_refpush c n)) tr1.
+Proof. exact close_after_push. Qed.
+Print Assumptions C04_close_after_push.
